@@ -37,18 +37,18 @@ type Attr struct {
 	// enclosing flattened message to the field (embedded fields first).
 	Chain []string `json:"chain"`
 	// ChainNullable[i] tells whether Chain[i] (an embedded message) is a pointer.
-	EmbedNullable []bool `json:"embed_nullable,omitempty"`
-	Owner         string `json:"owner"` // proto message that declares the field
-	Card          string `json:"card,omitempty"`
-	Kind          string `json:"kind"` // ir kind; "placeholder" for empty messages
-	GoScalar      string `json:"go_scalar,omitempty"`
-	TF            string `json:"tf"`
-	Msg           *Msg   `json:"msg,omitempty"`
-	Oneof         string `json:"oneof,omitempty"`
-	Pointer       bool   `json:"pointer,omitempty"` // value/element is a pointer on the Go side
-	Cast          string `json:"cast,omitempty"`
-	Custom        *Custom `json:"custom,omitempty"`
-	ByValueTemporal bool `json:"by_value_temporal,omitempty"` // time/duration held by value (always rendered)
+	EmbedNullable   []bool  `json:"embed_nullable,omitempty"`
+	Owner           string  `json:"owner"` // proto message that declares the field
+	Card            string  `json:"card,omitempty"`
+	Kind            string  `json:"kind"` // ir kind; "placeholder" for empty messages
+	GoScalar        string  `json:"go_scalar,omitempty"`
+	TF              string  `json:"tf"`
+	Msg             *Msg    `json:"msg,omitempty"`
+	Oneof           string  `json:"oneof,omitempty"`
+	Pointer         bool    `json:"pointer,omitempty"` // value/element is a pointer on the Go side
+	Cast            string  `json:"cast,omitempty"`
+	Custom          *Custom `json:"custom,omitempty"`
+	ByValueTemporal bool    `json:"by_value_temporal,omitempty"` // time/duration held by value (always rendered)
 
 	Required      bool     `json:"required,omitempty"`
 	Computed      bool     `json:"computed,omitempty"`
@@ -87,10 +87,10 @@ type TimeCfg struct {
 }
 
 type Model struct {
-	Roots        []*Msg   `json:"roots"`
-	TimeCtor     bool     `json:"time_ctor"`
-	DurationCtor bool     `json:"duration_ctor"`
-	Sort         bool     `json:"sort"`
+	Roots        []*Msg `json:"roots"`
+	TimeCtor     bool   `json:"time_ctor"`
+	DurationCtor bool   `json:"duration_ctor"`
+	Sort         bool   `json:"sort"`
 }
 
 func (m *Model) Root(name string) *Msg {
@@ -236,13 +236,10 @@ func (b *builder) fields(out *Msg, d *ir.Message, keyBase string, chain []string
 			if sub == nil {
 				return fmt.Errorf("unknown message %s", fl.Type)
 			}
-			// Children of an embedded message are addressed as children of the
-			// embedding message; the full form is only fixed when that is the root
-			// occurrence itself (DESIGN §3.2).
+			// Children of an embedded message are flattened into the embedding message. The
+			// README does not say how a full path addresses them (the code re-bases the
+			// path at the embedding message), so only the Message.Field form is modelled.
 			childBase := ""
-			if len(chain) == 0 && keyBase == d.Name {
-				childBase = keyBase
-			}
 			en := append(append([]bool{}, embedNullable...), fl.IsNullable())
 			if err := b.fields(out, sub, childBase, ch, en, depth+1); err != nil {
 				return err
@@ -326,12 +323,12 @@ func (b *builder) fields(out *Msg, d *ir.Message, keyBase string, chain []string
 
 // Occurrence is one addressable field occurrence below the selected roots.
 type Occurrence struct {
-	FullKey string
-	TypeKey string
-	Message string // owner message
-	Field   *ir.Field
-	Depth   int
-	Embed   bool // the field is an embedding field itself
+	FullKey          string
+	TypeKey          string
+	Message          string // owner message
+	Field            *ir.Field
+	Depth            int
+	Embed            bool // the field is an embedding field itself
 	UnderNestedEmbed bool
 	// MsgPath is the full path of the message-typed field itself (for injected fields), "" if none.
 }
@@ -362,9 +359,6 @@ func Occurrences(f *ir.File, types []string) []Occurrence {
 					continue
 				}
 				childBase := ""
-				if rootLevel && !flattened {
-					childBase = keyBase
-				}
 				walk(sub, childBase, depth+1, true, rootLevel)
 				continue
 			}
